@@ -498,16 +498,36 @@ def cont7(ctx: Ctx) -> None:
         ctx.R.ok("CONT-7", "a trickery failure produces an InspectionWarning")
     else:
         ctx.R.fail("CONT-7", mod, h, "a trickery failure must produce an InspectionWarning", construct="warn InspectionWarning")
-    tgt = norm(_stmt(mod, c).targets[0])
-    fb = [s for s in h.body if isinstance(s, ast.Assign) and norm(s.targets[0]) == tgt and norm(s.value) == "_contexts_active_by_referents(frame, origin)"]
-    if fb:
-        ctx.R.ok("CONT-7", "and the referents analysis of the same frame (with its origin) is used instead")
+    cst = _stmt(mod, c)
+    if isinstance(cst, ast.Assign):
+        tgt = norm(cst.targets[0])
+        fb = [s for s in h.body if isinstance(s, ast.Assign) and norm(s.targets[0]) == tgt and norm(s.value) == "_contexts_active_by_referents(frame, origin)"]
+        if fb:
+            ctx.R.ok("CONT-7", "and the referents analysis of the same frame (with its origin) is used instead")
+        else:
+            ctx.R.fail("CONT-7", mod, h, "after a trickery failure the result must come from _contexts_active_by_referents(frame, origin)", construct="fallback assignment")
     else:
-        ctx.R.fail("CONT-7", mod, h, "after a trickery failure the result must come from _contexts_active_by_referents(frame, origin)", construct="fallback assignment")
+        # out-parameter style: the analysis appends to a list it is given
+        outs = [norm(a) for a in c.args[1:]] + [norm(k.value) for k in c.keywords]
+        fcalls = [x for x in ast.walk(h) if isinstance(x, ast.Call) and norm(x.func) == "_contexts_active_by_referents"]
+        if not fcalls or [norm(a) for a in fcalls[0].args[:2]] != ["frame", "origin"]:
+            ctx.R.fail("CONT-7", mod, h, "after a trickery failure the result must come from _contexts_active_by_referents(frame, origin)", construct="fallback assignment")
+        else:
+            shared = [o for o in outs if o in [norm(a) for a in fcalls[0].args[2:]] + [norm(k.value) for k in fcalls[0].keywords]]
+            fst = _stmt(mod, fcalls[0])
+            resets = [s_ for s_ in h.body if s_.lineno < fst.lineno and any(
+                norm(s_) in (f"{o}.clear()", f"del {o}[:]", f"{o}[:] = []", f"{o} = []") for o in shared)]
+            if shared and not resets:
+                ctx.R.fail("CONT-7", mod, fst, f"the trickery analysis and its fallback both append to the same list `{shared[0]}`, and nothing empties it in the handler: entries the trickery analysis produced before "
+                           "it failed stay in front of the referents result (duplicated / half-filled contexts after a warning)", construct="fallback accumulates on the failed analysis' partial result")
+            elif shared:
+                ctx.R.ok("CONT-7", "the shared result list is emptied before the referents analysis fills it")
+            else:
+                ctx.R.undecided("CONT-7", "cannot see where the result of the trickery / referents analysis goes")
     gs = [(norm(g), pol) for g, pol in guards_of(mod, c, fn)]
     if gs == [("_check_trickery_available()", True)]:
         other = [x for x in calls_in(fn, True) if norm(x.func) == "_contexts_active_by_referents" and ("_check_trickery_available()", False) in [(norm(g), pol) for g, pol in guards_of(mod, x, fn)]]
-        if other and [norm(a) for a in other[0].args] == ["frame", "origin"]:
+        if other and [norm(a) for a in other[0].args[:2]] == ["frame", "origin"]:
             ctx.R.ok("CONT-7", "trickery iff _check_trickery_available(), else referents(frame, origin)")
         else:
             ctx.R.fail("CONT-7", mod, fn, "with trickery disabled the referents analysis must be used", construct="else: referents")
@@ -651,8 +671,29 @@ def ref1(ctx: Ctx) -> None:
     if len(loops) != 1:
         raise AnalysisError("REF-1: referent scan vanished")
     loop = loops[0]
-    rootv = norm(loop.iter.args[0])
     rv = norm(loop.target)
+    # REF-2: every bound exit method among the referents yields its own entry: nothing de-duplicates them (a re-entrant manager
+    # entered twice is two active contexts; bound methods compare equal when they are the same method of the same object)
+    dedup = None
+    for st in ast.walk(loop):
+        if isinstance(st, ast.If):
+            for c_ in ast.walk(st.test):
+                if isinstance(c_, ast.Compare) and len(c_.ops) == 1 and isinstance(c_.ops[0], (ast.In, ast.NotIn)) and isinstance(c_.comparators[0], ast.Name):
+                    cont = c_.comparators[0].id
+                    is_local_container = any(isinstance(a_, (ast.Assign, ast.AnnAssign)) and norm(a_.targets[0] if isinstance(a_, ast.Assign) else a_.target) == cont
+                                             and a_.value is not None and (isinstance(a_.value, (ast.Set, ast.List, ast.Dict)) or (isinstance(a_.value, ast.Call) and norm(a_.value.func) in ("set", "list", "dict")))
+                                             for a_ in ast.walk(fn))
+                    if is_local_container and (rv in norm(c_.left)):
+                        dedup = (st, c_)
+    if dedup:
+        ctx.R.fail("REF-2", mod, dedup[0], f"the referent scan skips a bound exit method when `{norm(dedup[1])}`: bound methods (and managers) compare by value, so a manager that is entered twice in the frame "
+                   "(a re-entrant lock, nullcontext()) is listed once: an active context is missing", construct="referents de-duplicated by equality")
+    else:
+        ctx.R.ok("REF-2", "every matching referent yields its own Context (no de-duplication)")
+    if not isinstance(loop.iter, ast.Call) or not loop.iter.args:
+        ctx.R.undecided("REF-1", f"the referent scan iterates over `{norm(loop.iter)[:60]}`, not over gc.get_referents(<one root>)")
+        return
+    rootv = norm(loop.iter.args[0])
     ifs = [s for s in loop.body if isinstance(s, ast.If)]
     if len(ifs) != 1:
         raise AnalysisError("REF-1: method filter vanished")
